@@ -76,3 +76,15 @@ _m("C02",
    "Non-trivial: depth >= 2 with one of min/max/abs/log/exp/Heaviside/t/volume/non-integer power/clash name/legacy "
    "spelling and at least one point in the domain, or any injection case.",
    _COMMON + ["a loud rejection of a valid expression is allowed by the statement and only counted"])
+
+_m("C07",
+   "For each generated model (with / without delay reactions x with / without a repeated assignment rule; 24 models "
+   "quick, 300 thorough; uniform grids from 0 with 2, 5 or 17 points) the full option lattice stochastic{F,T} x "
+   "delay{None,F,T} x safe{F,T} x volume{off, True, 1.0, 2.5, Volume object (+ a dividing volume object in the "
+   "thorough tier)} x return_dataframe{T,F} x source{Model, plain interface, safe interface} = 360 (432) combinations "
+   "is enumerated completely; each call must return a result (rows = requested times or a prefix on division, exact "
+   "time axis, species columns in model order then time (+ volume), first row = initial condition with repeated "
+   "assignment rules applied) or raise an explicit option error from py_simulate_model itself.  Non-trivial: "
+   "delay=True, a volume, or a pre-built interface; distinct by case hash.",
+   _COMMON, exhaustive=True,
+   exhaustive_note="the option lattice is enumerated completely for every generated (model, grid); models and grids are sampled")
